@@ -114,6 +114,48 @@ def encoder_cases(rng, tier, n, macro_share=6, eci_share=8, fnc1_share=8, allow_
     return cs
 
 
+
+def constant_cases(rng, tier, op='encode'):
+    """inputs that sit on the constants of the codec rather than on symbol capacities: Base256 runs of the lengths where
+    the length field changes form (249/250, multiples of 250, 1555), the ASCII / shift-set / EDIFACT / X12 alphabet
+    borders, digit-pair borders.  Deterministic families; rng only chooses fillers."""
+    cs = []
+
+    def add(d, modes, cat, wl=None, fnc1=False):
+        wl = ALL48 if wl is None else wl
+        line = encode_line(d, wl, modes, False, fnc1, None).replace('encode', op, 1)
+        cs.append({'line': line, 'cat': cat, 'cfg': dict(data=d, wl=wl, modes=modes, macros=False, fnc1=fnc1, eci=None)})
+    lens = [1, 2, 248, 249, 250, 251, 252, 499, 500, 501, 750]
+    if tier != 'quick':
+        lens += [253, 498, 502, 749, 751, 999, 1000, 1001, 1249, 1250, 1251, 1499, 1500, 1501, 1553, 1554, 1555]
+    else:
+        lens += [1000, 1554, 1555]
+    for L in lens:
+        run = [rng.choice(ALPH['high']) for _ in range(L)]
+        for pre, post in (([], []), ([75], [101, 110, 100]), ([49, 50], []), ([], [65])):
+            if L > 600 and (pre, post) not in (([], []), ([75], [101, 110, 100])):
+                continue
+            add(pre + run + post, 63, 'b256-length')
+            if L <= 600 or not pre:
+                add(pre + run + post, 33, 'b256-length')
+        if L <= 600:
+            add(run, 32, 'b256-length')
+    borders = [0, 1, 31, 32, 33, 47, 48, 57, 58, 64, 65, 90, 91, 94, 95, 96, 97, 122, 123, 126, 127, 128, 129, 159, 160, 191, 192,
+               223, 224, 254, 255]
+    for b in borders:
+        for ctx in ([65, 66, 67], [97, 98, 99], [49, 50, 51], [200, 201], []):
+            for modes in (63, 1 + 2, 1 + 4, 1 + 16, 1 + 8, 1 + 32, 2, 4):
+                if rng.chance(1, 2) and tier == 'quick':
+                    continue
+                add(ctx + [b] + ctx, modes, 'alphabet-border')
+                add(ctx + ctx + [b], modes, 'alphabet-border')
+    for n in range(1, 9):
+        add([48 + (k % 10) for k in range(n)], 63, 'digit-pairs')
+        add([48 + (k % 10) for k in range(n)] + [65], 63, 'digit-pairs')
+        add([65] + [57] * n, 1, 'digit-pairs')
+    return cs
+
+
 def boundary_cases(rng, tier, per_cap=2, op='encode'):
     """inputs whose encoded length lands around a symbol capacity: digit / letter / byte runs of the
     lengths that fill a symbol exactly, one less, one more (where the end-of-data rules fire)"""
